@@ -538,6 +538,12 @@ impl<'a> Parser<'a> {{
     ) {{
         self.pos = state.pos;
         self.current = state.current;
+        if let Some(error_node) = state.error_node {{
+            if self.error_node.is_none() {{
+                // the pending error node was closed and announced in the abandoned alternative
+                self.delete_node(Rule::Error, NodeRef(error_node.0));
+            }}
+        }}
         self.error_node = state.error_node;
         self.error_since_advance = state.error_since_advance;
         diags.truncate(state.diag_count);
